@@ -9,14 +9,16 @@ from collections import defaultdict
 import vlib
 from gen import novel as GN
 from props import c04sim as SIM
+from props import c04split as SPLIT
 
 ID = "C04"
 PROPS = ["IsoVerif/Props/C04.lean", "IsoVerif/Props/C04Graph.lean", "IsoVerif/Props/C04Store.lean",
          "IsoVerif/Props/C04Paths.lean", "IsoVerif/Props/C03Paths.lean", "IsoVerif/Props/C04Join.lean",
-         "IsoVerif/Props/C04Terminals.lean", "IsoVerif/Props/C04Simplify.lean", "IsoVerif/Props/C04Similar.lean"]
+         "IsoVerif/Props/C04Terminals.lean", "IsoVerif/Props/C04Simplify.lean", "IsoVerif/Props/C04Similar.lean",
+         "IsoVerif/Props/C04Chromosome.lean"]
 TARGETS = ["IsoVerif.Props.C04", "IsoVerif.Props.C04Graph", "IsoVerif.Props.C04Store", "IsoVerif.Props.C04Paths",
            "IsoVerif.Props.C03Paths", "IsoVerif.Props.C04Join", "IsoVerif.Props.C04Terminals", "IsoVerif.Props.C04Simplify",
-           "IsoVerif.Props.C04Similar"]
+           "IsoVerif.Props.C04Similar", "IsoVerif.Props.C04Chromosome"]
 GEN_DEPS = ["Prims", "Enums", "Strategies", "Constants", "ModelConstruction", "EventClasses", "ComparatorTables"]
 LEVEL = "proof"
 RULE = ("in-process: seeded loci (exon lattice, annotated + unannotated isoforms, reads with splice-site jitter, truncation, "
@@ -33,7 +35,11 @@ RULE = ("in-process: seeded loci (exon lattice, annotated + unannotated isoforms
         "mapq; 3 % coordinates that make an intron start equal a vertex code) through the REAL detect_similar_isoforms, "
         "pre_filter_transcripts, filter_transcripts (real GeneInfo.from_models / LongReadAssigner / CombinedProfileConstructor / "
         "is_matching_assignment / correct_novel_transcript_ends; only the component-coverage functions stubbed) vs the model's "
-        "computed filter; exhaustive grid of same-chain pairs (20 x 20 end offsets x 2 strategies; quick: a third)")
+        "computed filter; exhaustive grid of same-chain pairs (20 x 20 end offsets x 2 strategies; quick: a third).  Growth "
+        "(props/c04split.py): chromosome tasks of 2-4 records (chains from one intron pool so that they repeat between records, "
+        "copies of an earlier record's chain with another 5' vertex, shared detected_known_isoforms / id distributor / "
+        "reported_novel_chains) through REAL process() calls with stubbed collaborators whose recorded answers are the model's "
+        "parameters; pipeline datasets whose read cluster is cut into sub-regions (gen/splitloci.py)")
 TRUSTED = ["heuristics consulted by the decision block are parameters of the model (assigner verdict per path, per-intron canonical "
            "strand, component coverage, detect_similar_isoforms, per-read mapq): theorems quantify over all their values",
            "tracing shims in harness/props/C04.py (dict subclasses, method wrappers) record the operations the real "
@@ -47,7 +53,9 @@ ASSUMPTIONS = ["CPython int semantics = Lean Int; set/dict iteration order does 
                "the assigner's verdict on a PATH in construct_fl_isoforms, get_intron_strand and the component-coverage functions "
                "are inputs (assumption interface monitored by the pipeline oracle); detect_similar_isoforms is computed by the "
                "model since the growth round (C01 assigner model composed; exact-rational scores as in C01)",
-               "transcript ids in one storage are pairwise distinct (id allocation is property C17)"]
+               "transcript ids in one storage are pairwise distinct (id allocation is property C17)",
+               "the records (gene_info, assignment_storage) of a chromosome task are taken as given: which alignments reach which "
+               "sub-region is C05 / C08; the per-chromosome theorems hold for every sequence of records"]
 
 
 # ---------------------------------------------------------------------------------------------------
@@ -1842,6 +1850,8 @@ def correspondence(ctx):
     corr_store(ctx, 400 if q else 4000)
     # growth: detect_similar_isoforms / filter_transcripts computed by the model (props/c04sim.py)
     SIM.correspondence(ctx)
+    # growth: the constructors of one chromosome task (props/c04split.py)
+    SPLIT.correspondence(ctx)
 
 
 # ---------------------------------------------------------------------------------------------------
@@ -2112,6 +2122,9 @@ def oracle_tables():
 def witness_dataset(name):
     """hand-made inputs for the two defects found (docs/C04.md)"""
     from gen import synth
+    ds = SPLIT.witness_dataset(name)        # growth c04split: loci whose read cluster is cut into sub-regions
+    if ds is not None:
+        return ds
     ds = synth.Dataset(7)
     ds.add_chrom("chr1", 30000)
     if name == "overlap_substitution":
@@ -2157,6 +2170,8 @@ def witness_dataset(name):
 def build_dataset(spec):
     if spec["kind"] == "witness":
         return witness_dataset(spec["name"])
+    if spec["kind"] == "split":
+        return SPLIT.build_dataset(spec)
     ds, truth = GN.novel_dataset(spec["seed"], **spec.get("args", {}))
     return ds
 
@@ -2247,13 +2262,20 @@ def check_outputs(inputs, outdir, cfg):
             nic = tid.endswith(C.TranscriptNaming.nic_transcript_suffix) and not tid.endswith(C.TranscriptNaming.nnic_transcript_suffix)
             nnic = tid.endswith(C.TranscriptNaming.nnic_transcript_suffix)
             if (allk and not nic) or (not allk and not nnic):
-                res.append(("wrong_suffix", "", "novel %s: all introns annotated = %s" % (tid, allk)))
+                # growth c04split (audit GAP-1b): on a CUT cluster the constructor only knows the genes of its sub-region
+                cls = SPLIT.classify_wrong_suffix(inputs, t, ref) if (allk and nnic) else ""
+                res.append(("wrong_suffix", cls, "novel %s: all introns annotated = %s" % (tid, allk)))
             ch = tuple(t["introns"])
             if ch in ref_chains[(t["chr"], t["strand"])]:
                 res.append(("chain_equals_reference", "", "novel %s repeats the intron chain of a reference transcript" % tid))
             key = (t["chr"], t["strand"], ch)
             if key in seen_chain:
-                cls = "monointron_apa" if len(ch) == 1 else "multi_exon"
+                # the listed finding is mono-intronic AND its twins end at two different polyA sites (audit C04 remark 3: the
+                # predicate must not swallow a mono-intronic duplicate of another origin, e.g. two sub-regions of a cut cluster,
+                # whose twins share the 3' end and differ at the 5' end)
+                o = novel[seen_chain[key]]
+                end3 = (lambda x: x["exons"][-1][1]) if t["strand"] == "+" else (lambda x: x["exons"][0][0])
+                cls = "multi_exon" if len(ch) > 1 else ("monointron_apa" if end3(o) != end3(t) else "monointron_same_polya")
                 res.append(("duplicate_novel_chain", cls, "novel %s and %s share the intron chain %s on %s%s"
                             % (seen_chain[key], tid, list(ch)[:3], t["chr"], t["strand"])))
             else:
@@ -2311,6 +2333,11 @@ def pipeline_oracle(ctx, nrandom):
                 crashes["n"] += 1
                 ctx.notes.append("pipeline run failed (not a property failure): %s" % detail[-300:])
                 continue
+            if kind == SPLIT.FINDING_1B_KIND and cls == SPLIT.FINDING_1B_CLASS and not SPLIT.finding_listed():
+                # proposed known finding (the builder may not edit known_findings.json): counted until it is listed
+                ctx.count("proposed_finding:%s" % SPLIT.FINDING_1B_ID)
+                ctx.extra.setdefault("proposed_finding_example:" + SPLIT.FINDING_1B_ID, {"dataset": spec, "config": cfg, "detail": detail})
+                continue
             ctx.fail(kind, {"level": "pipeline", "dataset": spec, "config": cfg, "class": cls}, detail)
     # fixed witnesses first: the repaired defect (regression) and the listed finding
     for name, cfg in [("overlap_substitution", {"genedb": False}), ("overlap_substitution", {"genedb": True}),
@@ -2340,6 +2367,13 @@ def pipeline_oracle(ctx, nrandom):
                 "args": {"n_chroms": 2, "genes_per_chrom": ctx.rng.choice([3, 4, 5]), "annotation": True,
                          "dup_polya": ctx.rng.random() < 0.3}}
         fails, stats = run_pipeline_case(spec, cfg)
+        record(spec, cfg, fails, stats)
+    # growth c04split: loci whose read cluster is cut into sub-regions (alignments bridging the cut reach two constructors)
+    for spec, cfg in SPLIT.pipeline_cases(ctx):
+        if crashes["n"] >= 2:
+            break
+        fails, stats = run_pipeline_case(spec, cfg)
+        SPLIT.note_pipeline_case(ctx, spec, cfg, fails, stats)
         record(spec, cfg, fails, stats)
     ctx.extra["pipeline_totals"] = dict(stats_total)
     if stats_total.get("novel_spliced", 0) > 0:
@@ -2438,6 +2472,8 @@ def oracle(ctx, disagreements, broken):
     ctx.extra["oracle_inproc_cases"] = n
     # growth: the clauses on the output of the REAL filter_transcripts (props/c04sim.py)
     SIM.oracle(ctx, disagreements, broken)
+    # growth: the per-chromosome clause on real sequences of constructors (props/c04split.py)
+    SPLIT.oracle(ctx, disagreements, broken)
     # 4. the real pipeline
     pipeline_oracle(ctx, 6 if ctx.tier == "quick" else 80)
 
@@ -2453,6 +2489,9 @@ def replay(ctx, failure):
         return any(k == failure["kind"] and c == inp.get("class", "") for k, c, _ in fails)
     if inp.get("level") == "tables":
         return oracle_tables() is not None
+    if inp.get("op") == "chr_run":
+        r = SPLIT.replay_case(inp["args"])
+        return bool(r) and r[0] == failure["kind"]
     if inp.get("op") in ("sim_filter", "detect_similar"):
         r = SIM.replay_case(inp["args"])
         return bool(r) and r[0] == failure["kind"] and r[1] == inp.get("class", "")
